@@ -117,6 +117,7 @@ func verifWriteReady(op *FDOperator, vs [][]byte, ivs []syscall.Iovec) {
 //verif:loop 40
 //verif:poloop 3
 //verif:potimeout 400
+//verif:also C19
 func verifHarness_C08_flush(sc int) {
 	c := verifNewConn(verifConnCfg{closeCBs: 1})
 	verifC08Conn = c
